@@ -2,7 +2,7 @@
    Statements only; proofs are in ProofsStore.v.  The model function is
    Store.set_val_real (mirrors Fxp.set_val, objects.py:802-932). *)
 From Coq Require Import ZArith List Bool.
-From FxpVerif Require Import Spec NP Store ProofsCore ProofsStore.
+From FxpVerif Require Import Spec NP Store ProofsCore ProofsStore ProofsHuge.
 Import ListNotations.
 Open Scope Z_scope.
 
@@ -16,6 +16,20 @@ Theorem C01_store_float_arrays : forall f r o vs,
           w_inacc := existsb (inacc_cond f r o) vs |}.
 Proof. exact set_val_floats_core. Qed.
 Print Assumptions C01_store_float_arrays.
+
+(* float inputs of ANY finite magnitude under saturate, n_frac >= 0 (the extension of the
+   core domain the property states): every finite double (53-bit mantissa, any exponent),
+   arrays of any length mixing huge and fractional elements — whether the scaled double
+   overflows to infinity, and whether set_val takes its Python-object path (some element
+   beyond 2^64) or not *)
+Theorem C01_store_floats_saturate_any_magnitude : forall f r vs,
+  1 <= nw f <= 52 -> 0 <= nf f <= 60 -> Forall dbl vs ->
+  set_val_real f r Saturate false (AF64 (map (fun v => Fin (dm v) (de v)) vs)) VFloat
+  = Ok {| w_codes := map (quantize f r Saturate) vs;
+          w_ovf := existsb (ovf_cond f r) vs; w_unf := existsb (unf_cond f r) vs;
+          w_inacc := existsb (inacc_cond f r Saturate) vs |}.
+Proof. exact set_val_floats_saturate_any. Qed.
+Print Assumptions C01_store_floats_saturate_any_magnitude.
 
 (* integer carriers (Python int, NumPy integer scalars/arrays, lists of ints) *)
 Theorem C01_store_int_arrays : forall f r o zs,
